@@ -21,7 +21,9 @@ class PyBytesIO:
 
     def write(self, b):
         # redun.bcoding only ever appends (the position is at the end while encoding).
-        self.data = self.data + bytes(b) if not isinstance(b, bytes) else self.data + b
+        if not isinstance(b, (bytes, bytearray, memoryview)):
+            raise TypeError("a bytes-like object is required, not '%s'" % type(b).__name__)
+        self.data = self.data + (b if isinstance(b, bytes) else bytes(b))
         self.pos = len(self.data)
         return len(b)
 
